@@ -139,17 +139,21 @@ def c03(run):
 def _parser(run, emit_cfg, mc_cfgs, label):
     q = run.tier == "quick"
     out = vec("%s-Parser.ndjson" % run.pid)
-    if os.path.exists(out):
-        os.remove(out)
-    # the emitting run: one JSON line per distinct state (witness path + outcome of every operation)
+    wide = vec("%s-ParserWide.ndjson" % run.pid)
+    for f in (out, wide):
+        if os.path.exists(f):
+            os.remove(f)
+    # the emitting runs: one JSON line per distinct state (witness path + outcome of every operation)
     run.mc("MC_Parser", emit_cfg, env={"OUT": out}, heap="8g", timeout=6000)
+    # second alphabet family: byte-sharing 3-byte characters and characters at the ends of an encoded width
+    run.mc("MC_Parser", "Parser.wide.cfg", env={"OUT": wide}, heap="8g", timeout=6000)
     run.sample_file(out, k=1)
     run.samples = [{"s": x.get("s"), "base": x.get("base"), "path": x.get("path"), "st": x.get("st"),
                     "outs(first 3)": x.get("outs", [])[:3]} for x in run.samples]
     # deeper model-checking-only runs (no emission)
     for c in mc_cfgs:
         run.mc("MC_Parser", c, env={"OUT": "/dev/null"}, heap="8g", timeout=6000)
-    run.replay([out], label)
+    run.replay([out, wide], label)
     run.record_and_validate("Parser", "Trace_Parser", "Trace_Parser.cfg",
                             n_files=6 if q else 16, n_events=2500 if q else 10000, timeout=3000)
     run.assumptions += [BOUNDED, "the string functions used by the Parser model are the reference operators that "
